@@ -32,23 +32,25 @@ Proof. exact c07_constants. Qed.
 (* ALL SCHEDULES.  For EVERY sequence of operations - registrations, probing passes, lost
    tie-breaks, conflicts, in any order - at EVERY sequence of nondecreasing times (late or early
    wake-ups alike), and every name n: each probe query for n and each activation of n comes at
-   least 250 ms after the previous probe query for n. *)
+   least 250 ms after the previous probe query for n; the handling of a conflicting response
+   restarts probes at now + 0..250 and starts the count afresh (spaced_250 resets at OConflict). *)
 Theorem C07_probe_spacing_all_schedules : forall ops n t0,
-  times_from t0 ops -> spaced_250 n None (run_ops reg_new ops).
+  times_from t0 ops -> spaced_250 n None ops (run_ops reg_new ops).
 Proof. exact probe_spacing_all_schedules_proof. Qed.
 
-(* ... in particular the times of the probe queries for a name are pairwise 250 ms apart. *)
+(* ... in particular, without conflicting responses, the times of the probe queries for a name
+   are pairwise 250 ms apart. *)
 Theorem C07_probe_times_250_apart : forall ops n t0,
-  times_from t0 ops -> gaps_250 (probe_times n (run_ops reg_new ops)).
+  times_from t0 ops -> no_conflicts ops -> gaps_250 (probe_times n (run_ops reg_new ops)).
 Proof. exact probe_times_gaps. Qed.
 
-(* THE SAME ON THE WIRE, FOR EVERY HISTORY OF THE DAEMON MODEL: whatever the interface table
-   (without repeated indexes), the datagrams delivered, the API calls, the jitter values and the
-   (nondecreasing) iteration times, the iterations that put a probe query for name n on
-   interface k are at least 250 ms apart.  (wire_probe_times reads the question names of the
-   query packets the model's iterate emits.) *)
+(* THE SAME ON THE WIRE, FOR EVERY HISTORY OF THE DAEMON MODEL without response datagrams and
+   without enable/disable_interface calls (plain_iter): whatever the interface table (without
+   repeated indexes), the query datagrams delivered (competing probes included), the register /
+   unregister / shutdown calls, the jitter values and the (nondecreasing) iteration times, the
+   iterations that put a probe query for name n on interface k are at least 250 ms apart. *)
 Theorem C07_wire_probe_spacing : forall ifs its t0 k n,
-  NoDup (map if_index ifs) -> iter_times_from t0 its ->
+  NoDup (map if_index ifs) -> Forall plain_iter its -> iter_times_from t0 its ->
   gaps_250 (wire_probe_times k n (d_init ifs) its).
 Proof. exact wire_probe_spacing. Qed.
 
@@ -140,25 +142,31 @@ Proof. exact w_late_refutes. Qed.
 Theorem C07_record_joining_a_probe_refuted : only_known 44 (self7 w_join_ifs w_join_its).
 Proof. exact w_join_known. Qed.
 
-(* "... a further 250 ms has passed without a conflict" / "after a lost comparison it waits one
-   second and probes again" is FALSE when a host-name conflict follows a lost tie-break:
-   update_hostname moves the instance probe's start_time back without touching next_send, and at
-   next_send the probe counts as finished.  Witness (run on the real daemon): the instance name is
-   probed once, at +222 ms, and announced at +1471 ms. *)
-Theorem C07_no_reprobe_after_lost_tiebreak_refuted :
-  only_known 46 (self7 w_skipreprobe_ifs w_skipreprobe_its) /\
+(* Formerly refuted, now holding (fix 30a3832): after a lost tie-break followed by a host-name
+   conflict the instance name is probed again - one query at +222 ms, then three more at +696,
+   +946, +1196 ms before the announcement; chk_C07 accepts the run.  (The restart comes before
+   the second that the lost tie-break asks for: C08_restart_cancels_deferral_refuted.) *)
+Theorem C07_reprobe_after_host_rename :
+  self7 w_skipreprobe_ifs w_skipreprobe_its = [] /\
   wire_probe_times 2 [100;101;118;45;49;46;95;116;46;95;116;99;112;46;108;111;99;97;108;46]
-                   (d_init w_skipreprobe_ifs) w_skipreprobe_its = [1000222] /\
-  busy (timeline w_skipreprobe_ifs w_skipreprobe_its) =
-  [ (1000222, true, false, false); (1000472, true, false, false); (1000696, true, false, false);
-    (1000722, true, false, false); (1000946, true, false, false); (1001196, true, false, false);
-    (1001471, false, true, false) ].
-Proof. exact w_skipreprobe_refutes. Qed.
+                   (d_init w_skipreprobe_ifs) w_skipreprobe_its = [1000222; 1000696; 1000946; 1001196].
+Proof. exact w_skipreprobe_fixed. Qed.
+
+(* An interface that is taken away while an addr_auto service is probing takes its registry with
+   it: when it comes back the names are probed three times anew before the announcements. *)
+Theorem C07_interface_reappears_probes_anew :
+  self7 w_toggle_ifs w_toggle_its = [] /\
+  busy (timeline w_toggle_ifs w_toggle_its) =
+  [ (1000145, true, false, false); (1000395, true, false, false);
+    (1001098, true, false, false); (1001348, true, false, false); (1001598, true, false, false);
+    (1001848, false, true, false); (1002848, false, true, false) ].
+Proof. exact w_toggle_accepted. Qed.
 
 (* History level, full statement (validated on every generated history by running chk_C07 on the
    model's own observation, NOT proved):
      forall ifs its, well-formed history -> no VFail in chk_C07 g7_init (d_init ifs) its (model_obs (d_init ifs) its).
-   Proved for all histories: the probe spacing on the wire (C07_wire_probe_spacing).  Proved at the
+   Proved for all histories without response datagrams and interface toggles: the probe spacing on
+   the wire (C07_wire_probe_spacing).  Proved at the
    level of the registry machine (all operation sequences) and of single daemon steps: the rest
    above.  The remaining clauses of chk_C07 (three probes and the 250 ms wait before every
    response, second announcement, requested wake-up) are not lifted to histories. *)
@@ -188,5 +196,6 @@ Print Assumptions C07_no_answer_unless_announced.
 Print Assumptions C07_registration_is_joins.
 Print Assumptions C07_three_probes_on_late_schedules_refuted.
 Print Assumptions C07_record_joining_a_probe_refuted.
-Print Assumptions C07_no_reprobe_after_lost_tiebreak_refuted.
+Print Assumptions C07_reprobe_after_host_rename.
+Print Assumptions C07_interface_reappears_probes_anew.
 Print Assumptions C07_exact_run.
